@@ -69,7 +69,8 @@ def draw(ctx, n, data, cls, key, stats=None):
             ok, msg = False, "bytes consumed are not the consecutive prefix of the stream"
         if rej >= 2:
             ctx.case("randrange.rejected_ge2", key="%s|%s" % (key, min(rej, 5)))
-    ctx.case(cls, key="%s|rej%s" % (key, rej if rej == "all" else min(rej, 5)))
+    ctx.case(cls, key="%s|rej%s" % (key, rej if rej == "all" else min(rej, 5)),
+             sample=dict(order=n, stream_prefix=data[:40], requests=st.log[:4], library=got if outcome is None else outcome, model=m and m[0], rejected=rej) if ctx.want(cls) else None)
     if stats is not None and m is not None:
         stats.append((m[0], m[2]))
     if not ok:
